@@ -556,6 +556,89 @@ open GV.Gen.Chains.Curve
 """
 
 
+# C03_chains_points: the hypotheses of C03_chain_points discharged with the C02_gen group-law theorems of the translated
+# AddAssign / Double / Neg (per curve: extra instance arguments of the G2 file, coordinate field of G2)
+C03P_CURVES = {
+    "bn254": ("[QuadExt.NonSquare (-1 : F)]", "K2 F"),
+    "bls12_377": ("[QuadExt.NonSquare (-5 : F)]", "K2 F"),
+    "bls12_381": ("[QuadExt.NonSquare (-1 : F)]", "K2 F"),
+    "bw6_761": ("", "F"),
+}
+
+C03P_HEAD = r"""@IMPORTS@import GnarkVerif.Props.C03_chains
+""" + NOTE + r"""/-
+C03 / C02 — `mulBySeed` END TO END on the curve group: the hypotheses of `C03_chain_points` (Props/C03_chains.lean) are
+discharged with the group-law theorems of Props/C02_gen_<curve>* about the point formulas that tools/goslp/slp.go
+regenerates from the same g1.go / g2.go (`C02gen_G1Jac_AddAssign`, `C02gen_G1Jac_Double`, `C02gen_G1Jac_Neg`, and G2).
+Hence: for every field of characteristic ≠ 2 (G2: over the translated quadratic extension), every coefficient b and every
+Jacobian triple q representing a point Q of Mathlib's group `(sw 0 b).Point` — infinity, 2-torsion, any scaling —
+running the translated `mulBySeed` chain with the translated `AddAssign` / `Double` / `Neg` yields a representation of
+`xGen • Q`, `xGen` the regenerated seed. (`DoubleAssign` is `Double` on the same variable: both are `jacDouble`, C02_gen.)
+-/
+set_option linter.unusedSectionVars false
+set_option linter.unusedVariables false
+"""
+
+C03P_CURVE = r"""
+namespace GV.Gen.Curve.@C@
+open GV.Chain GV.Curve GV.C02 GV.CurveGen GV.Tower WeierstrassCurve
+
+section g1
+variable {F : Type} [Field F] [DecidableEq F]
+
+/-- the translated G1 point operations as chain operations -/
+def g1ChainOps : Ops (G1Jac F) :=
+  { mul := fun a b => (G1Jac.AddAssign a b).1, sq := fun a => (G1Jac.Double a).1, inv := fun a => (G1Jac.Neg a).1,
+    sqc := fun a => (G1Jac.Double a).1, dec := id }
+
+theorem C03_mulBySeed_G1 (hc : (2 : F) ≠ 0) {b : F} {q : G1Jac F} {Q : (sw 0 b).Point} (hq : q.Rep b Q) :
+    (eval g1ChainOps GV.Gen.Chains.Curve.@C@.g1_mulBySeed q).Rep b (GV.Gen.CurveConsts.@C@.xGen • Q) ∧
+    (eval g1ChainOps GV.Gen.Chains.Curve.@C@.g1_mulBySeed_inplace q).Rep b (GV.Gen.CurveConsts.@C@.xGen • Q) :=
+  ⟨C03_chain_points g1ChainOps (fun t P => G1Jac.Rep b t P) (fun _ _ _ _ ha hb => C02gen_G1Jac_AddAssign hc ha hb)
+      (fun _ _ ha => C02gen_G1Jac_Double hc ha) (fun _ _ ha => C02gen_G1Jac_Neg ha) (fun _ _ ha => C02gen_G1Jac_Double hc ha)
+      (fun _ _ ha => ha) _ _ GV.Chain.@C@.g1_mulBySeed_expo q Q hq,
+   C03_chain_points g1ChainOps (fun t P => G1Jac.Rep b t P) (fun _ _ _ _ ha hb => C02gen_G1Jac_AddAssign hc ha hb)
+      (fun _ _ ha => C02gen_G1Jac_Double hc ha) (fun _ _ ha => C02gen_G1Jac_Neg ha) (fun _ _ ha => C02gen_G1Jac_Double hc ha)
+      (fun _ _ ha => ha) _ _ GV.Chain.@C@.g1_mulBySeed_inplace_expo q Q hq⟩
+end g1
+
+section g2
+variable {F : Type} [Field F] [DecidableEq F] @INST@
+
+/-- the translated G2 point operations as chain operations -/
+def g2ChainOps : Ops (G2Jac F) :=
+  { mul := fun a b => (G2Jac.AddAssign a b).1, sq := fun a => (G2Jac.Double a).1, inv := fun a => (G2Jac.Neg a).1,
+    sqc := fun a => (G2Jac.Double a).1, dec := id }
+
+theorem C03_mulBySeed_G2 (hc : (2 : @K@) ≠ 0) {b : @K@} {q : G2Jac F} {Q : (sw 0 b).Point} (hq : q.Rep b Q) :
+    (eval g2ChainOps GV.Gen.Chains.Curve.@C@.g2_mulBySeed q).Rep b (GV.Gen.CurveConsts.@C@.xGen • Q) ∧
+    (eval g2ChainOps GV.Gen.Chains.Curve.@C@.g2_mulBySeed_inplace q).Rep b (GV.Gen.CurveConsts.@C@.xGen • Q) :=
+  ⟨C03_chain_points g2ChainOps (fun t P => G2Jac.Rep b t P) (fun _ _ _ _ ha hb => C02gen_G2Jac_AddAssign hc ha hb)
+      (fun _ _ ha => C02gen_G2Jac_Double hc ha) (fun _ _ ha => C02gen_G2Jac_Neg ha) (fun _ _ ha => C02gen_G2Jac_Double hc ha)
+      (fun _ _ ha => ha) _ _ GV.Chain.@C@.g2_mulBySeed_expo q Q hq,
+   C03_chain_points g2ChainOps (fun t P => G2Jac.Rep b t P) (fun _ _ _ _ ha hb => C02gen_G2Jac_AddAssign hc ha hb)
+      (fun _ _ ha => C02gen_G2Jac_Double hc ha) (fun _ _ ha => C02gen_G2Jac_Neg ha) (fun _ _ ha => C02gen_G2Jac_Double hc ha)
+      (fun _ _ ha => ha) _ _ GV.Chain.@C@.g2_mulBySeed_inplace_expo q Q hq⟩
+end g2
+end GV.Gen.Curve.@C@
+"""
+
+
+def c03_points(pk):
+    body, audit, imports = [], [], ""
+    for curve, fns in pk.items():
+        if curve not in C03P_CURVES or sorted(fns) != ["g1_mulBySeed", "g1_mulBySeed_inplace", "g2_mulBySeed", "g2_mulBySeed_inplace"]:
+            sys.exit("mkchains: %s %s: add the C02_gen instantiation data for this curve (C03P_CURVES)" % (curve, fns))
+        inst, k = C03P_CURVES[curve]
+        imports += "import GnarkVerif.Props.C02_gen_%s\nimport GnarkVerif.Props.C02_gen_%s_g2\n" % (curve, curve)
+        body.append(C03P_CURVE.replace("@C@", curve).replace("@INST@", inst).replace("@K@", k))
+        audit += ["GV.Gen.Curve.%s.C03_mulBySeed_G1" % curve, "GV.Gen.Curve.%s.C03_mulBySeed_G2" % curve]
+    write(os.path.join(PROPS, "C03_chains_points.lean"), C03P_HEAD.replace("@IMPORTS@", imports) + "".join(body))
+    au = "import GnarkVerif.Props.C03_chains_points\n" + "".join("#print axioms %s\n" % t for t in audit)
+    write(os.path.join(AUDIT, "C03_chains_points.lean"), au)
+    print("C03_chains_points: %d theorems" % len(audit))
+
+
 def curve_chains():
     s = open(os.path.join(GEN, "Chains", "Curve.lean")).read()
     pk = {}
@@ -584,6 +667,7 @@ def c03():
     au = "import GnarkVerif.Props.C03_chains\n" + "".join("#print axioms %s\n" % t for t in gen + audit + ["GV.Chain.C03_chains_functions", "GV.Chain.C03_chains_windowed"])
     write(os.path.join(AUDIT, "C03_chains.lean"), au)
     print("C03_chains: %d curves, %d theorems" % (len(pk), len(gen) + len(audit) + 2))
+    c03_points(pk)
 
 
 # ------------------------------------------------------------------------------------------------ main
